@@ -307,7 +307,7 @@ func (f *frame) havocLoc(n *node, l modLoc) {
 			} else {
 				inner = "(store (select " + arr + " " + p.C[0] + ") " + p.Idx + " " + x.g.Const("mod."+k, c.sort) + ")"
 			}
-			x.hset(n.heap, k, c.sort, SortBV64, x.g.Fresh(heapArraySort(c.sort, SortBV64), "(store "+arr+" "+p.C[0]+" "+inner+")"))
+			x.hset(n.heap, k, c.sort, SortBV64, x.g.Fresh(heapArraySort(c.sort, SortBV64), "(store "+arr+" "+p.C[0]+" "+inner+")"), p.C[0])
 			for _, ep := range eps {
 				ep.written[k] = true
 			}
@@ -315,7 +315,7 @@ func (f *frame) havocLoc(n *node, l modLoc) {
 			k := key + c.suffix
 			arr := x.hget(n.heap, k, c.sort, "")
 			fresh := x.g.Const("mod."+k, c.sort)
-			x.hset(n.heap, k, c.sort, "", x.g.Fresh(heapArraySort(c.sort, ""), "(store "+arr+" "+p.C[0]+" "+fresh+")"))
+			x.hset(n.heap, k, c.sort, "", x.g.Fresh(heapArraySort(c.sort, ""), "(store "+arr+" "+p.C[0]+" "+fresh+")"), p.C[0])
 			for _, ep := range eps {
 				ep.written[k] = true
 			}
@@ -636,7 +636,7 @@ func (f *frame) appendBuiltin(n *node, in *ssa.Call) Val {
 			dst = g.Const("append", arrSort(SortBV64, c.sort))
 			g.Assume("(forall ((i! (_ BitVec 64))) (= (select " + dst + " i!) (ite (bvult (bvsub i! " + start + ") " + elen + ") (select " + eArr + " (bvadd " + eoff + " (bvsub i! " + start + "))) (select " + srcArr + " i!))))")
 		}
-		x.hset(n.heap, k, c.sort, SortBV64, g.Fresh(heapArraySort(c.sort, SortBV64), "(store "+harr+" "+ref+" "+dst+")"))
+		x.hset(n.heap, k, c.sort, SortBV64, g.Fresh(heapArraySort(c.sort, SortBV64), "(store "+harr+" "+ref+" "+dst+")"), ref)
 		for _, ep := range eps {
 			ep.written[k] = true
 		}
@@ -700,7 +700,7 @@ func (f *frame) copyBuiltin(n *node, in *ssa.Call) Val {
 			dst = g.Const("copy", arrSort(SortBV64, c.sort))
 			g.Assume("(forall ((i! (_ BitVec 64))) (= (select " + dst + " i!) (ite (bvult (bvsub i! " + d.C[1] + ") " + cnt + ") (select " + sArr + " (bvadd " + s.C[1] + " (bvsub i! " + d.C[1] + "))) (select " + dArr + " i!))))")
 		}
-		x.hset(n.heap, k, c.sort, SortBV64, g.Fresh(heapArraySort(c.sort, SortBV64), "(store "+harr+" "+d.C[0]+" "+dst+")"))
+		x.hset(n.heap, k, c.sort, SortBV64, g.Fresh(heapArraySort(c.sort, SortBV64), "(store "+harr+" "+d.C[0]+" "+dst+")"), d.C[0])
 		for _, ep := range eps {
 			ep.written[k] = true
 		}
